@@ -89,6 +89,19 @@ def renderHex (rd : List UInt8) : List UInt8 :=
 def genericTail (sep rd : List UInt8) : List UInt8 :=
   sep ++ decimal rd.length ++ (if rd.isEmpty then [] else sep ++ renderHex rd)
 
+/-- lower-case hexadecimal digits of `n`, no leading zeros (a group of an IPv6 address) -/
+def hexText (n : Nat) : List UInt8 :=
+  if h : n < 16 then [hexDigitOctet n]
+  else hexText (n / 16) ++ [hexDigitOctet (n % 16)]
+termination_by n
+decreasing_by omega
+
+/-- groups separated by colons -/
+def groupsText : List Nat → List UInt8
+  | [] => []
+  | [g] => hexText g
+  | g :: gs => hexText g ++ 58 :: groupsText gs
+
 /-- the labels in wire form, without the root label -/
 def wireLabels (ls : List (List UInt8)) : List UInt8 := ls.flatMap fun l => UInt8.ofNat l.length :: l
 
@@ -238,6 +251,7 @@ inductive PRdata where
   | srv (prio weight port : Nat) (n : PName)                   -- IN SRV
   | txt (s : PString) (ss : List PString)
   | hinfo (cpu os : PString)
+  | aaaa (groups : List Nat)                                   -- IN AAAA: eight 16-bit groups, written in full
   deriving Repr, Inhabited
 
 def u16Wire (n : Nat) : List UInt8 := [UInt8.ofNat (n / 256 % 256), UInt8.ofNat (n % 256)]
@@ -257,6 +271,7 @@ def kindOK (cls ty : Nat) : PRdata → Bool
   | .srv .. => cls == 1 && ty == 33
   | .txt .. => ty == 16
   | .hinfo .. => ty == 13
+  | .aaaa .. => cls == 1 && ty == 28
 
 /-- the second and later strings of TXT, each after its gap -/
 def txtRest (G : Nat → PGap) : Nat → List PString → List UInt8
@@ -279,6 +294,7 @@ def rdataText (G : Nat → PGap) : PRdata → List UInt8
     decimal p ++ (gapText (G 0) ++ (decimal w ++ (gapText (G 1) ++ (decimal port ++ (gapText (G 2) ++ nameText n)))))
   | .txt s ss => stringText s ++ txtRest G 0 ss
   | .hinfo c o => stringText c ++ (gapText (G 0) ++ stringText o)
+  | .aaaa gs => groupsText gs
 
 /-- number of gaps inside the RDATA -/
 def rdataGaps : PRdata → Nat
@@ -291,6 +307,7 @@ def rdataGaps : PRdata → Nat
   | .srv .. => 3
   | .txt _ ss => ss.length
   | .hinfo .. => 1
+  | .aaaa .. => 0
 
 def txtLines (G : Nat → PGap) : Nat → List PString → Nat
   | _, [] => 0
@@ -309,6 +326,7 @@ def rdataLines (G : Nat → PGap) : PRdata → Nat
   | .srv _ _ _ n => gapLines (G 0) + gapLines (G 1) + gapLines (G 2) + nameLines n
   | .txt s ss => stringLines s + txtLines G 0 ss
   | .hinfo c o => stringLines c + gapLines (G 0) + stringLines o
+  | .aaaa .. => 0
 
 /-- the RDATA denoted (RFC 1035 §3.3, RFC 2782 wire formats); `none` if a name cannot be completed -/
 def rdataWire (origin : Option (List UInt8)) : PRdata → Option (List UInt8)
@@ -327,6 +345,7 @@ def rdataWire (origin : Option (List UInt8)) : PRdata → Option (List UInt8)
   | .srv p w port n => (nameWire origin n).map fun wn => u16Wire p ++ u16Wire w ++ u16Wire port ++ wn
   | .txt s ss => some ((s :: ss).flatMap stringWire)
   | .hinfo c o => some (stringWire c ++ stringWire o)
+  | .aaaa gs => some (gs.flatMap u16Wire)
 
 /-! ### records and files — the presentation subset of `C23_records_partial`
 
@@ -338,10 +357,10 @@ def rdataWire (origin : Option (List UInt8)) : PRdata → Option (List UInt8)
   before).  TTL and class written (decimal; mnemonic in any case or `CLASSnnn`; in either order)
   or omitted.  Type: mnemonic in any case or `TYPEnnn`.  RDATA: the RFC 3597 form `\# len hex`
   for any class and type, or the typed syntax of A, NS/MD/MF/CNAME/MB/MG/MR/PTR, MX, SOA, MINFO,
-  SRV, TXT, HINFO (names relative / absolute / `@`; character-strings quoted or unquoted with
+  SRV, TXT, HINFO, AAAA (names relative / absolute / `@`; character-strings quoted or unquoted with
   escapes).  Directives: `$ORIGIN <absolute name>`, `$TTL <decimal>`,
   `$INCLUDE <path> [<origin>]`.  Blank and comment-only
-  lines.  Not in this subset (see C23.lean): AAAA, WKS and Chaosnet A typed syntax, parentheses
+  lines.  Not in this subset (see C23.lean): `::`-compressed or IPv4-suffixed AAAA, WKS and Chaosnet A typed syntax, parentheses
   in directives, a last line without newline. -/
 
 inductive POwner where
